@@ -1,4 +1,5 @@
 import OnetVerif.Model.C17
+import OnetVerif.Shapes
 /-! Property C17 — valid-peer sets decide exactly who may connect.
 Property theorems (`c17_…`), the lemmas they need, witnesses and non-vacuity examples. -/
 namespace C17
@@ -292,5 +293,49 @@ example :
 
 example : SpecValid (VP.set none setA [Ident.honest 1]) 1 :=
   c17_set_members none setA [Ident.honest 1] (Ident.honest 1) (by simp)
+
+/-! ### the code regions the model stands for
+Regenerated from /repo's source on every run (`harness/cmd/astfacts` → `OnetVerif/Shapes.lean`): the
+calls that matter for synchronisation and data flow, the lock regions and (for decision logic) the
+conditions, in source order.  A re-ordering, a dropped call or a changed condition breaks these
+obligations even when no sampled input or schedule shows a difference; the check then searches for
+a failing input. -/
+theorem c17_shape_router_validPeers_set :
+    Shapes.network_router_validPeers_set =
+   ["peer.GetID", "lock.Lock", "defer:lock.Unlock"] := rfl
+
+theorem c17_shape_router_validPeers_get :
+    Shapes.network_router_validPeers_get =
+   ["lock.Lock", "defer:lock.Unlock"] := rfl
+
+theorem c17_shape_router_validPeers_isValid :
+    Shapes.network_router_validPeers_isValid =
+   ["lock.Lock", "defer:lock.Unlock", "if:(vp.peers==nil)", "return:true", "peer.GetID", "if:ok",
+     "return:true", "return:false"] := rfl
+
+theorem c17_shape_router_Router_SetValidPeers :
+    Shapes.network_router_Router_SetValidPeers =
+   ["validPeers.set"] := rfl
+
+theorem c17_shape_router_Router_isPeerValid :
+    Shapes.network_router_Router_isPeerValid =
+   ["validPeers.isValid"] := rfl
+
+theorem c17_shape_Context_SetValidPeers :
+    Shapes.context_Context_SetValidPeers =
+   ["server.SetValidPeers"] := rfl
+
+theorem c17_shape_Context_GetValidPeers :
+    Shapes.context_Context_GetValidPeers =
+   ["server.GetValidPeers"] := rfl
+
+theorem c17_shape_Context_NewPeerSetID :
+    Shapes.context_Context_NewPeerSetID =
+   ["sha256.New", "h.Write", "h.Write", "h.Sum", "network.NewPeerSetID"] := rfl
+
+theorem c17_shape_struct_ServerIdentity_GetID :
+    Shapes.network_struct_ServerIdentity_GetID =
+   ["ServerIdentityID", "Public.String", "uuid.NewSHA1", "ServerIdentityID"] := rfl
+
 
 end C17
